@@ -67,7 +67,7 @@ CHECKS = [
   "Metadata precedence and cluster-name filters are not compared.",
   "property-based testing (proptest) with a reference model (stateful, vec(op) + interpreter)"),
  chk("C18", "E3 real server + console HTTP", "exploration",
-  "Differential against the administrator on a real server: fixture data in a 6-namespace universe, restricted users (whitelist/blacklist groups stored at creation or by update), a catalogue of 66 console data endpoints of both API versions cross-checked against the routes discovered from console_config (an unclassified data route is exit 2), namespace spellings (omitted, empty, 'public', explicit), request variants. Reads must show no item of a forbidden namespace and only items the admin sees; writes naming a forbidden namespace must leave the admin's snapshot unchanged, permitted ones must behave as the admin's. A deterministic sweep of all endpoints x targets x spellings plus thousands of generated cases. 33 endpoint shapes from 8 root causes are recorded open known findings (keyed on endpoint + operation); anything else is a violation.",
+  "Differential against the administrator on a real server: fixture data in a 6-namespace universe, restricted users (whitelist/blacklist groups stored at creation or by update), a catalogue of 66 console data endpoints of both API versions cross-checked against the routes discovered from console_config (an unclassified data route is exit 2), namespace spellings (omitted, empty, 'public', explicit), request variants. Reads must show no item of a forbidden namespace and only items the admin sees; writes naming a forbidden namespace must leave the admin's snapshot unchanged, permitted ones must behave as the admin's. A deterministic sweep of all endpoints x targets x spellings plus thousands of generated cases. 32 endpoint shapes found this way were repaired in /repo (known_findings.json, status fixed); one (MCP server import moving a server out of a forbidden namespace) is recorded open, keyed on endpoint + operation; anything else is a violation.",
   "One server per worker is reused and the fixture restored after every write case. Disabled groups and stale sessions after a privilege change are not decided.",
   "property-based testing (proptest) + exhaustive endpoint sweep with an admin-differential oracle on a real server"),
  chk("C06", "E3 real 3-node clusters on loopback with nemesis", "exploration",
@@ -83,7 +83,7 @@ CHECKS = [
   "Real clock with one-sided windows (scheduling delay can only make the check more lenient). gRPC-owned instances are covered by C11/C12; take-over after a node failure is exercised by C15's kill schedules.",
   "property-based testing (proptest-generated timelines) with a timing-window oracle on a real server"),
  chk("C15", "E3 real 3-node clusters on loopback", "exploration",
-  "Generated schedules (10..36 ops) on real 3-node clusters: HTTP register (weights 2..4) / deregister addressed to generated nodes over 3 services x 6 addresses, gRPC register / deregister of 6 further addresses through up to three held bi-stream connections attached to generated nodes, connection close, pauses, and (second class) kill -9 / restart of one node, with HTTP heartbeats kept going for the instances the model holds. Oracle: within 100 s after the last op all live nodes return the same set (address, healthy, enabled, weight) for every service, and that set is exactly the surviving registrations: instances of connections attached to a killed node, of closed connections and deregistered ones are gone, everything else present and healthy (weights are compared with the model only in schedules without a kill). Saved counterexamples are re-run first.",
+  "Generated schedules (10..36 ops) on real 3-node clusters: HTTP register (weights 2..4) / deregister addressed to generated nodes over 3 services x 6 addresses, gRPC register / deregister of 6 further addresses through up to three held bi-stream connections attached to generated nodes, connection close, pauses, back-to-back update+deregister / deregister+register of one address, and (second class) kill -9 / restart of one node, with HTTP heartbeats kept going for the instances the model holds. Oracle: within 100 s after the last op all live nodes return the same set (address, healthy, enabled, weight) for every service, and that set is exactly the surviving registrations: instances of connections attached to a killed node, of closed connections and deregistered ones are gone, everything else present and healthy (weights are compared with the model only in schedules without a kill). Saved counterexamples are re-run first.",
   "Message schedules between the nodes are sampled by real execution, not controlled ('delayed batch overtaking a remove' is reachable only by luck). HTTP deregistration is only issued for addresses that are not connection-owned; each gRPC address is written by one connection at a time. One node down at a time.",
   "property-based testing (proptest-generated client/fault schedules) with a reference model + cross-node agreement oracle on real clusters"),
  chk("C16", "E1 route discovery + E3 real server (HTTP raw client, tonic gRPC client)", "exploration",
